@@ -31,6 +31,15 @@ def generate(rng, tier):
                                              field(True, 'base', ty_id('Base'), [a_ident('base')])])
         c = case('padtail%d' % i, rng.choice([4, 8]), [modent(path('m'), module(defs=[base, der] if i % 2 else [der, base]))])
         out.append(c if ok else c + [[S('expect'), 'reject-vftable-mismatch']])
+    from . import rare
+    for c in rare.vftable_cases():
+        out.append(c + [[S('expect'), 'reject-vftable-mismatch']] if find(c, 'must-reject') is not None else c)
+    # a derived block written AFTER the base field: must be rejected, not silently ignored
+    vf2 = lambda nm: fn(True, nm, [], [SELF], None)
+    b_ = type_def(True, 'Base', [], [vftable([], [vf2('f'), vf2('g')])])
+    for k, blk in enumerate([[vf2('other')], [vf2('f'), vf2('g'), vf2('h')], [vf2('f'), vf2('g')]]):
+        d_ = type_def(True, 'Derived', [], [field(True, 'base', ty_id('Base'), [a_ident('base')]), vftable([], blk)])
+        out.append(case('blocklate%d' % k, rng.choice([4, 8]), [modent(path('m'), module(defs=[b_, d_]))]) + [[S('expect'), 'reject-vftable-mismatch']])
     return out
 
 def first_base_name(d):
